@@ -717,3 +717,81 @@ def evidence_of(u, sg):
                   'band_enforced': list(band_limits(k)) if b else None,
                   'calibrated_min_max': [b[0], b[1]] if b else None}
     return out
+
+
+# ----------------------------------------------------------------------------------------------------------
+# Repeatability and order independence (WAVE3 rule 2).  The routines are pure functions of their arguments, so
+# the value of a call may not depend on what was called before it in the process.
+# ----------------------------------------------------------------------------------------------------------
+
+def canon(r):
+    """Bit-exact canonical form of a result (None, number, tuple of numbers/None)."""
+    if r is None:
+        return None
+    if isinstance(r, (tuple, list)):
+        return tuple(canon(x) for x in r)
+    try:
+        return float(r).hex()
+    except (TypeError, ValueError):
+        return repr(r)
+
+
+def history_pass(fresh, variants, timeout_exc):
+    """variants: [(name, thunk)] - calls at ONE state.  'fresh' restores isolation (re-imports the library
+    modules, so that whatever a routine keeps between calls - module globals, default arguments, function
+    attributes - is as in a new process).
+      isolated value of a call = its value as the first call after 'fresh';
+      then, from one fresh state and without restoring in between: every call twice in a row, and for every
+      ordered pair (f, g) the sequence f, g, f.  Every result must be bit-identical to the isolated value.
+    Returns (number of calls compared, [(name, primer, isolated, got)] - one entry per deviating call; the
+    primer is the single earlier call that reproduces the deviation from a fresh state, found by trying each
+    variant in turn, or 'longer-history(last=...)' when no single call does)."""
+    def run(th):
+        try:
+            return canon(th())
+        except timeout_exc:
+            raise
+        except Exception as e:
+            return 'raises:' + type(e).__name__
+
+    iso = {}
+    for name, th in variants:
+        fresh()
+        iso[name] = run(th)
+    fresh()
+    state = {'prev': 'fresh-import', 'n': 0}
+    bad = {}
+
+    def do(name, th):
+        got = run(th)
+        state['n'] += 1
+        if got != iso[name] and name not in bad:
+            bad[name] = (state['prev'], iso[name], got)
+        state['prev'] = name
+
+    for name, th in variants:
+        do(name, th)
+        do(name, th)
+    for f in variants:
+        for g in variants:
+            if f is not g:
+                do(*f)
+                do(*g)
+                do(*f)
+    # attribution: the smallest history that reproduces a deviation - one primer call from a fresh state
+    out = []
+    by_name = dict(variants)
+    for k in sorted(bad):
+        prev, want, got = bad[k]
+        primer = None
+        for cname, cth in variants:
+            fresh()
+            run(cth)
+            g2 = run(by_name[k])
+            if g2 != want:
+                primer, got = cname, g2
+                break
+        out.append((k, primer if primer is not None else 'longer-history(last=%s)' % prev, want, got))
+    fresh()
+    return state['n'], out
+
